@@ -13,7 +13,11 @@ RULE = ("harness c18: the real write_to / read_from of the 30 serialisable layou
         "factor combinations whose product overflows usize (incl. products that wrap to the honest length), bit flips, trailing bytes; "
         "the receiver is observed through its own write_to under catch_unwind (words written before an error are kept), HAL types also "
         "through public fields (whole buffer); the model must predict outcome, every header / wrapper field and every visible byte; "
-        "distinct = distinct (op, type, receiver, stream) lines")
+        "distinct = distinct (op, type, receiver, stream) lines; honest streams are assembled by the harness from its own field table "
+        "(never read back through the library), automorphism keys carry the Galois elements -1 -5 -7 -25 5 25 -3 3 (setter and stream); "
+        "the record list is produced in a child process (a crash there leaves the CONSTRUCT records of the grid: alloc + fill + write_to "
+        "of each shape as records of their own); the oracle also requires that a stream which IS an honest serialisation fitting the "
+        "receiver is accepted and reproduced (READ clause 5)")
 ASSUMPTIONS = [
     "64-bit usize; the two integer semantics of the header products are both modelled (dbg flag of each record = the profile of the harness binary)",
     "a single allocation request above 131072 bytes is refused while read_from runs (allocator installed by the harness; `alloc_limit` of the model): "
@@ -99,7 +103,7 @@ def _drive(lines):
 
 
 def _clause_codes(code):
-    return {18001: [18011, 18012, 18013, 18014, 18016], 18003: [18031, 18032, 18033, 18034, 18035, 18036]}.get(code, [])
+    return {18001: [18011, 18012, 18013, 18014, 18015, 18016], 18003: [18031, 18032, 18033, 18034, 18035, 18036]}.get(code, [])
 
 
 def _eval_clauses(records):
